@@ -797,6 +797,29 @@ pub fn parse_identifier(yaml: &Yaml) -> crate::Result<Expression> {
     }
 }
 
+/// Merges the words of a field name back together, keeping the white space that was written
+/// between them in the key.
+fn rejoin(key: &str, words: &[String]) -> String {
+    // The field name is the last run of words in a key, so locate it from the back.
+    let mut start = key.len();
+    let mut end = None;
+    for word in words.iter().rev() {
+        match key[..start].rfind(word.as_str()) {
+            Some(position) => {
+                if end.is_none() {
+                    end = Some(position + word.len());
+                }
+                start = position;
+            }
+            None => return words.join(" "),
+        }
+    }
+    match end {
+        Some(end) => key[start..end].to_string(),
+        None => words.join(" "),
+    }
+}
+
 // TODO: Extract common code and try to make this function a little bit more readable
 fn parse_mapping(mapping: &Mapping) -> crate::Result<Expression> {
     let mut expressions = vec![];
@@ -813,7 +836,7 @@ fn parse_mapping(mapping: &Mapping) -> crate::Result<Expression> {
                         Token::Identifier(s) => identifier.push(s),
                         _ => {
                             if !identifier.is_empty() {
-                                tokens.push(Token::Identifier(identifier.join(" ")));
+                                tokens.push(Token::Identifier(rejoin(s, &identifier)));
                                 identifier.clear();
                             }
                             tokens.push(token);
@@ -821,7 +844,7 @@ fn parse_mapping(mapping: &Mapping) -> crate::Result<Expression> {
                     }
                 }
                 if !identifier.is_empty() {
-                    tokens.push(Token::Identifier(identifier.join(" ")));
+                    tokens.push(Token::Identifier(rejoin(s, &identifier)));
                     identifier.clear();
                 }
                 let expr = parse(&tokens)?;
